@@ -36,13 +36,13 @@ func (s *rawHTMLParser) Parse(parent ast.Node, block text.Reader, pc Context) as
 		return s.parseComment(block, pc)
 	}
 	if bytes.HasPrefix(line, openProcessingInstruction) {
-		return s.parseUntil(block, closeProcessingInstruction, pc)
+		return s.parseUntil(block, len(openProcessingInstruction), closeProcessingInstruction, pc)
 	}
 	if len(line) > 2 && line[1] == '!' && line[2] >= 'A' && line[2] <= 'Z' {
-		return s.parseUntil(block, closeDecl, pc)
+		return s.parseUntil(block, 2, closeDecl, pc)
 	}
 	if bytes.HasPrefix(line, openCDATA) {
-		return s.parseUntil(block, closeCDATA, pc)
+		return s.parseUntil(block, len(openCDATA), closeCDATA, pc)
 	}
 	return nil
 }
@@ -98,7 +98,7 @@ func (s *rawHTMLParser) parseComment(block text.Reader, pc Context) ast.Node {
 	return nil
 }
 
-func (s *rawHTMLParser) parseUntil(block text.Reader, closer []byte, pc Context) ast.Node {
+func (s *rawHTMLParser) parseUntil(block text.Reader, offset int, closer []byte, pc Context) ast.Node {
 	savedLine, savedSegment := block.Position()
 	node := ast.NewRawHTML()
 	for {
@@ -106,12 +106,15 @@ func (s *rawHTMLParser) parseUntil(block text.Reader, closer []byte, pc Context)
 		if line == nil {
 			break
 		}
-		index := bytes.Index(line, closer)
+		// the closer is searched after the opener: it must not share characters with it ("<?>")
+		index := bytes.Index(line[offset:], closer)
 		if index > -1 {
+			index += offset
 			node.Segments.Append(segment.WithStop(segment.Start + index + len(closer)))
 			block.Advance(index + len(closer))
 			return node
 		}
+		offset = 0
 		node.Segments.Append(segment)
 		block.AdvanceLine()
 	}
